@@ -13,8 +13,15 @@ FAMILIES = [
 ]
 
 
-def all_programs(chk, depth_values=1, depth_verdict=0, only=None):
+def all_programs(chk, depth_values=1, depth_verdict=0, only=None, gen=0):
+    """gen = n: add n programs of each size of the typed generator spec/MambaGen.tla (family "MambaGen")"""
     cases = []
+    if gen:
+        for size in (1, 2):
+            part = probes.generate_gen(chk, gen, size)
+            for c in part:
+                c["family"] = "MambaGen"
+            cases += part
     for module, parts, cfg in FAMILIES:
         if only and module not in only:
             continue
